@@ -39,7 +39,7 @@ pub enum Case {
     Dist3 { a: P3, b: P3, dir: Option<P3> },
     DevSet { initial: Option<Vec<f64>>, pushes: Vec<f64> },
     Cloud { start: CloudStart, ops: Vec<CloudOp> },
-    TolMap { start: f64, incs: Vec<f64>, queries: Vec<(u16, f64, u8)>, #[serde(default)] zero_at: Option<u16> },
+    TolMap { start: f64, incs: Vec<f64>, queries: Vec<(u16, f64, u8)>, #[serde(default)] zero_at: Option<u16>, #[serde(default)] via: u8 },
 }
 
 fn devval() -> BoxedStrategy<f64> {
@@ -79,7 +79,7 @@ impl Property for C16 {
             1 => (p3(10.0), p3(10.0), prop::option::of(unit3())).prop_map(|(a, b, dir)| Case::Dist3 { a, b, dir }),
             3 => (prop::option::of(prop::collection::vec(devval(), 0..8)), prop::collection::vec(devval(), 0..40)).prop_map(|(initial, pushes)| Case::DevSet { initial, pushes }),
             3 => (cloud_start, prop::collection::vec(cloud_op, 0..10)).prop_map(|(start, ops)| Case::Cloud { start, ops }),
-            2 => (coord(5.0), prop::collection::vec(prop_oneof![1 => Just(0.0), 3 => unif(0.01, 2.0)], 0..20), prop::collection::vec((any::<u16>(), unif(0.0, 1.0), 0u8..8), 1..10), prop::option::weighted(0.3, any::<u16>())).prop_map(|(start, incs, queries, zero_at)| Case::TolMap { start, incs, queries, zero_at }),
+            2 => (coord(5.0), prop::collection::vec(prop_oneof![1 => Just(0.0), 3 => unif(0.01, 2.0)], 0..20), prop::collection::vec((any::<u16>(), unif(0.0, 1.0), 0u8..8), 1..10), prop::option::weighted(0.3, any::<u16>()), prop_oneof![3 => Just(0u8), 1 => Just(1u8), 1 => Just(2u8), 1 => Just(3u8)]).prop_map(|(start, incs, queries, zero_at, via)| Case::TolMap { start, incs, queries, zero_at, via }),
         ]
         .boxed()
     }
@@ -91,7 +91,7 @@ impl Property for C16 {
             Case::Dist3 { a, b, dir } => dist3(a, b, dir),
             Case::DevSet { initial, pushes } => devset(initial, pushes),
             Case::Cloud { start, ops } => cloud(start, ops),
-            Case::TolMap { start, incs, queries, zero_at } => tolmap(*start, incs, queries, *zero_at),
+            Case::TolMap { start, incs, queries, zero_at, via } => tolmap(*start, incs, queries, *zero_at, *via),
         }
     }
 }
@@ -511,7 +511,7 @@ fn cloud(start: &CloudStart, ops: &[CloudOp]) -> Verdict {
     cx.pass()
 }
 
-fn tolmap(start: f64, incs: &[f64], queries: &[(u16, f64, u8)], zero_at: Option<u16>) -> Verdict {
+fn tolmap(start: f64, incs: &[f64], queries: &[(u16, f64, u8)], zero_at: Option<u16>, via: u8) -> Verdict {
     let mut cx = Ctx::new();
     cx.label("tolmap");
     let mut xs = vec![start];
@@ -529,7 +529,32 @@ fn tolmap(start: f64, incs: &[f64], queries: &[(u16, f64, u8)], zero_at: Option<
         cx.label("zero_breakpoint");
     }
     let zones: Vec<Tolerance> = (0..n).map(|i| Tolerance::new_unchecked(-(i as f64) - 1.0, i as f64 + 1.0)).collect();
-    let dom = DiscreteDomain::try_from(xs.clone()).unwrap();
+    // the table comes from any constructor of the domain type: the validated vector, an evenly spaced table with its
+    // limits given in either order, or one grown by push; whatever it holds is the table the map is asked about
+    let strictly = xs.windows(2).all(|w| w[0] < w[1]);
+    let dom = match via {
+        1 | 2 if n >= 2 && xs[n - 1] > xs[0] => {
+            let (a, b) = if via == 1 { (xs[0], xs[n - 1]) } else { (xs[n - 1], xs[0]) };
+            cx.label(if via == 1 { "table_linear" } else { "table_linear_reversed_limits" });
+            match guarded(|| DiscreteDomain::linear(a, b, n)) {
+                Ok(d) => d,
+                Err(m) => return Verdict::fail("C16/tolmap/linear/panic", format!("DiscreteDomain::linear({a:e},{b:e},{n}): {m}")),
+            }
+        }
+        3 if strictly => {
+            cx.label("table_pushed");
+            let mut d = DiscreteDomain::default();
+            for x in &xs {
+                if let Err(e) = d.push(*x) {
+                    return Verdict::fail("C16/tolmap/push/rejected_valid", format!("push({x:e}) onto an ascending table failed: {e}"));
+                }
+            }
+            d
+        }
+        _ => DiscreteDomain::try_from(xs.clone()).unwrap(),
+    };
+    let xs: Vec<f64> = dom.values().to_vec();
+    ensure!(xs.len() == n, "C16/tolmap/table_length", "a table of {n} breakpoints was requested, the domain holds {}", xs.len());
     // length mismatch must be rejected
     ensure!(DiscreteDomainTolMap::try_new(dom.clone(), zones[..n - 1].to_vec()).is_err(), "C16/tolmap/try_new/accepted_mismatch", "try_new accepted {} breakpoints with {} zones", n, n - 1);
     let map = match DiscreteDomainTolMap::try_new(dom, zones.clone()) {
